@@ -142,7 +142,9 @@ class Prop(PropBase):
         # stft / istft
         g = np.random.default_rng(case["seed"])
         n, P, L = case["n"], case["P"], case["L"]
-        shape = (L,) + sigs.sample_shape(case["cls"], n)
+        # further sample axes after the channel (and polarisation) axis: none, one or two
+        ext = tuple([[], [], [2], [2, 3], [3, 2]][case["seed"] % 5])
+        shape = (L,) + sigs.sample_shape(case["cls"], n) + ext
         x = g.standard_normal(shape) + 1j * g.standard_normal(shape)
         if case["seed"] % 5 == 0:
             x = x * [1e-9, 1e-12][case["seed"] % 2]              # weak signals: the transforms are linear
@@ -202,7 +204,17 @@ class Prop(PropBase):
         out = {"rejects": rej, "repeat_ok": repeat_ok, "lazy_ok": lazy_ok, "stft": desc(y), "istft": desc(w), "orig_labels": [X.rat(X.q_value(f, u.Hz)) for f in z.channel_freqs]}
         Lt = (L // P) * P
         scale = float(np.max(np.abs(x)))
+        # the STFT values themselves: sub-channel c*P + k of segment s is bin k (centred order) of the P-point DFT of that segment
+        if Lt:
+            xs = x[:Lt].reshape((Lt // P, P) + shape[1:])
+            ref = np.fft.fftshift(np.fft.fft(xs, axis=1), axes=1) / P
+            ref = np.moveaxis(ref, 1, 2).reshape((Lt // P, n * P) + shape[2:])
+            yv = np.asarray(y.data)
+            out_stft_err = float(np.max(np.abs(yv - ref)) / scale) if yv.shape == ref.shape else -1.0
+        else:
+            out_stft_err = 0.0
         out["recon_err"] = float(np.max(np.abs(np.asarray(w.data) - x[:Lt])) / scale) if w.shape == x[:Lt].shape else -1.0
+        out["stft_err"] = out_stft_err
         # tone at a known absolute frequency: channel c, bin kb of the P-point DFT
         c = case["tone"][0] % n
         kb = case["tone"][1] % P - P // 2            # signed bin in [-P/2, P/2)
@@ -312,6 +324,8 @@ class Prop(PropBase):
         if code.get("lazy_ok") is False:
             return "stft/istft of Dask-backed copies (alone and evaluated in one graph) differ from the NumPy-backed results or are not lazy"
         # (argument checks that the property does not state are observed in `rejects` for the evidence, not judged)
+        if code.get("stft_err", 0.0) < 0 or code.get("stft_err", 0.0) > 1e-5:
+            return f"STFT values differ from the per-segment DFT of the input (relative error {code['stft_err']:.3g}; -1 = shape)"
         if code.get("repeat_ok") is False:
             return "istft (or stft) called a second time on the same object gives a different answer, or changed its argument"
         w = code["istft"]
